@@ -148,8 +148,12 @@ func c14Str(tag string) string {
 
 func c14Ng(cut bool, withOpts bool) { c14NgTS(cut, withOpts, false) }
 
+// c14PacketOptsOnly: section/interface strings get one fixed length each
+// (1,2,3,0), only the per-packet option strings range over every length
+var c14PacketOptsOnly = false
+
 func c14NgTS(cut bool, withOpts bool, symTS bool) {
-	c14FixedLens, c14NextLen = cut || symTS, 0
+	c14FixedLens, c14NextLen = cut || symTS || c14PacketOptsOnly, 0
 	w := &c14Writer{}
 	intf := NgInterface{
 		Name:                c14Str("ifname"),
@@ -171,6 +175,9 @@ func c14NgTS(cut bool, withOpts bool, symTS bool) {
 	ends := make([]int, k)
 	verifAssert(ngw.Flush() == nil, "flush")
 	hdrEnd := len(w.b)
+	if c14PacketOptsOnly {
+		c14FixedLens = false
+	}
 	for i := range pk {
 		ln := verifChoose(4)
 		d := verifBytes("d", 3)[:ln]
@@ -244,5 +251,6 @@ func c14NgTS(cut bool, withOpts bool, symTS bool) {
 func verif_C14_ng()          { c14Ng(false, false) }
 func verif_C14_ng_ts()       { c14NgTS(false, false, true) }
 func verif_C14_ng_opts()     { c14Ng(false, true) }
+func verif_C14_ng_popts()    { c14PacketOptsOnly = true; c14Ng(false, true) }
 func verif_C14_ng_cut()      { c14Ng(true, false) }
 func verif_C14_ng_opts_cut() { c14Ng(true, true) }
